@@ -130,6 +130,11 @@ var urlPool = map[string]bool{
 	"https://example.com?q=1":     true,
 	"http://-leading.example/":    true,
 	"http://.dot.example":         true,
+	// url.Parse takes a raw space after the authority (path, query, fragment) as it is
+	"https://example.com/some path": true,
+	"http://a.example/x?q=a b":      true,
+	"http://a.example/#frag ment":   true,
+	"http://a.example/tab\there":    false, // control characters are refused everywhere
 }
 
 func URLPoolKeys() []string {
